@@ -14,6 +14,7 @@ class Prop:
     isolate = False             # run the implementation with per-case crash isolation
     per_case_timeout = 0.05
     use_model = True
+    known_covers_k = False      # a known-finding class also excuses a correspondence disagreement (implementation behaviour unspecified there)
     rule = ''
     assumptions = []
     trusted_extra = []
@@ -110,7 +111,7 @@ def judge(prop, recs):
                 same = not bad
                 diff = ','.join(bad)
             if not same:
-                kn2 = kn or prop.known(r['line'], k, o)
+                kn2 = (kn or prop.known(r['line'], k, o)) if prop.known_covers_k else None
                 if kn2:
                     known_hits.setdefault(kn2, []).append(r)
                 else:
